@@ -7,7 +7,13 @@ interval helpers:
       that are find() positions, byte offsets on text tested is_ascii(), constant divisors, ...) or is an entry of the
       reviewed table; anything else is a finding — so no input text can make the parsers panic;
  (R2) Display / FromStr shape agreement: for Date and Time the separators and the number of fields written by Display
-      equal those FromStr splits on and requires.
+      equal those FromStr splits on and requires;
+ (R3) positional fields keep their width: FromStr reads the text after `.` as a left-aligned decimal fraction (it pads
+      it on the right to 9 digits), so Time's Display must derive what it writes after `.` from the nanosecond
+      rendered zero-padded to width 9 (trailing zeros may be trimmed); the hour/minute/second (and year/month/day)
+      placeholders keep a zero-padded fixed width.
+ (R4) sign against separator: Date's year is a signed field and Display separates fields with `-`, the sign character;
+      FromStr must take a leading `-` off (strip_prefix / starts_with on `-`) before it splits on the separator.
 Does NOT decide equality of the value after a text round trip (a runtime-value property)."""
 import re
 from ..engine.facts import callee_name
@@ -116,6 +122,69 @@ def run(ctx):
         if not seps_ok or sep not in split_chars or not need3:
             ctx.finding(f'R2/{ty}', f'{ty}: Display writes {main or texts} but FromStr splits on {sorted(split_chars)} (three parts required: {need3}): '
                         'the text form is not what the parser expects', disp[0].loc)
+    _fraction_rule(ctx, prog)
+    _sign_rule(ctx, prog)
+
+
+def _fraction_rule(ctx, prog):
+    from ..engine.symexpr import Sym
+    ctx.rule('C22.R3', 'Time::fmt: the value written after `.` is derived from a placeholder of width 9 with zero padding applied to self.nanosecond '
+             '(the reader pads the fraction on the right to 9 digits, so leading zeros are significant); hour, minute and second are written with '
+             'zero-padded width 2; Date::fmt writes month and day with zero-padded width 2')
+    disp = [f for f in prog.fns.values() if f.unit == 'vibesql_types' and re.search(r'<vibesql_types::temporal::time::Time as core::fmt::Display>::fmt$', f.nice)]
+    ctx.require(len(disp) == 1, 'Time Display not found')
+    f = disp[0]
+    sites = format_sites(prog, f)
+    with_frac = [x for x in sites if x['text'] and re.fullmatch(r'\{\}:\{\}:\{\}\.\{\}', x['text'])]
+    ctx.require(with_frac, 'Time::fmt: template with a fraction not found')
+    nano9 = [x for x in sites if x['text'] == '{}' and x.get('specs') and x['specs'][0]['width'] == 9 and x['specs'][0]['zero']
+             and x['args'] and x['args'][0][1] == 'u32']
+    sy = Sym(f)
+    ok = False
+    for x in with_frac:
+        t = f.blocks[x['block']]['t']
+        arr = sy.op(t['args'][1])
+        parts = re.match(r'^array\((.*)\)$', arr)
+        last = parts.group(1).rsplit(', ', 1)[-1] if parts else arr
+        # the last argument must be built from the width-9 rendering of the nanosecond
+        if nano9 and "fmt('{}'; self.nanosecond)" in arr.split('self.second, ', 1)[-1]:
+            ok = True
+    two = all(x.get('specs') and all(sp['width'] == 2 and sp['zero'] for sp in x['specs'][:3]) for x in sites if x['text'] and x['text'].startswith('{}:{}:{}'))
+    ctx.instance('R3/Time', {'rule': 'C22.R3', 'fraction_from_width9_zero_padded_nanosecond': ok, 'hms_width2_zero': two})
+    if not ok:
+        ctx.finding('R3/Time/fraction', 'Time::fmt writes the fraction without the zero-padded width-9 rendering of the nanosecond: leading zeros of the '
+                    'fraction are lost (12:00:00.05 is written as 12:00:00.5) and FromStr reads another value back', f.loc)
+    if not two:
+        ctx.finding('R3/Time/hms', 'Time::fmt no longer writes hour, minute and second with zero-padded width 2', f.loc)
+    dd = [g for g in prog.fns.values() if g.unit == 'vibesql_types' and re.search(r'<vibesql_types::temporal::date::Date as core::fmt::Display>::fmt$', g.nice)]
+    ctx.require(len(dd) == 1, 'Date Display not found')
+    ds = [x for x in format_sites(prog, dd[0]) if x['text'] == '{}-{}-{}']
+    okd = bool(ds) and all(x.get('specs') and all(sp['width'] == 2 and sp['zero'] for sp in x['specs'][1:3]) for x in ds)
+    ctx.instance('R3/Date', {'rule': 'C22.R3', 'month_day_width2_zero': okd, 'specs': [x.get('specs') for x in ds]})
+    if not okd:
+        ctx.finding('R3/Date', 'Date::fmt no longer writes month and day with zero-padded width 2', dd[0].loc)
+
+
+def _sign_rule(ctx, prog):
+    ctx.rule('C22.R4', 'Date: the first field written by Display is a signed integer and the separator is its sign character `-`: FromStr removes '
+             'a leading `-` (strip_prefix / starts_with with the constant `-`) before splitting')
+    dd = [g for g in prog.fns.values() if g.unit == 'vibesql_types' and re.search(r'<vibesql_types::temporal::date::Date as core::fmt::Display>::fmt$', g.nice)]
+    fr = [g for g in prog.fns.values() if g.unit == 'vibesql_types' and re.search(r'<vibesql_types::temporal::date::Date as core::str::traits::FromStr>::from_str$', g.nice)]
+    ctx.require(len(dd) == 1 and len(fr) == 1, 'Date Display / FromStr not found')
+    ds = [x for x in format_sites(prog, dd[0]) if x['text'] == '{}-{}-{}']
+    ctx.require(ds, 'Date::fmt template not found')
+    signed = any(x['args'] and re.fullmatch(r'i(8|16|32|64|128|size)', x['args'][0][1]) for x in ds)
+    fdefs = defs_of(fr[0])
+    strips = False
+    for i, t in fr[0].calls():
+        if re.search(r'::(strip_prefix|starts_with|trim_start_matches)(<|$)', callee_name(t) or '') and len(t['args']) > 1:
+            c = resolve_const(fr[0], fdefs, t['args'][1])
+            if c is not None and c.get('t') == 'char' and c.get('v') == 45:
+                strips = True
+    ctx.instance('R4/Date', {'rule': 'C22.R4', 'year_is_signed': signed, 'from_str_handles_leading_minus': strips})
+    if signed and not strips:
+        ctx.finding('R4/Date', 'Date::fmt writes a signed year next to the separator `-`, but FromStr splits the whole text on `-`: a date with a negative '
+                    'year (reachable through date arithmetic) is written as -001-06-15 and cannot be parsed back (dump and JSON loads fail)', fr[0].loc)
 
 
 def _is_test(f):
